@@ -7,7 +7,8 @@ import PyxModel.Prebuild.Recipe
 
 /-! driver commands of property C06:
       (c06 (ctx classes funcs ees enums consts params self) <BodyNode tree>)
-    answer: (((subtype "type")…)  statement-chains  parameter-chains  link-chains)
+    answer: (((subtype "type")…)  statement-chains  parameter-chains  link-chains  event-data-chains
+             (("variable" "type")…))
     where a chain row lists, per element in source order, the index of the element its referential attribute
     designates (or none); rows are sorted (the harness sorts its rows the same way).
       (c06-recipes)  →  the recipe table ((class ((rel partner)…) method)…) -/
@@ -70,6 +71,10 @@ def rowNext (n : Nat) : List Sexp :=
   let ids := List.range n
   ids.map fun x => encRef ids (nextInChain ids x)
 
+def rowNextEvt (n : Nat) : List Sexp :=
+  let ids := List.range n
+  ids.map fun x => encRef ids (nextEventDatum ids x)
+
 def Params.len : Params → Nat
   | .nil => 0
   | .cons _ _ r => Params.len r + 1
@@ -92,6 +97,7 @@ structure Acc where
   blocks : List Nat := []
   pars : List Nat := []
   links : List Nat := []
+  evts : List Nat := []
 
 def Block.len : Block → Nat
   | .nil => 0
@@ -109,6 +115,8 @@ mutual
     | .while_ e b => accBlock { a with pars := a.pars ++ exprParamLens e } b
     | .if_ e b el els => accElse (accElifs (accBlock { a with pars := a.pars ++ exprParamLens e } b) el) els
     | .invoke e => { a with pars := a.pars ++ exprParamLens e }
+    | .genEvt _ _ d _ => { a with pars := a.pars ++ paramsParamLens d, evts := a.evts ++ [Params.len d] }
+    | .createEvt _ _ _ d _ => { a with pars := a.pars ++ paramsParamLens d, evts := a.evts ++ [Params.len d] }
     | _ => a
   partial def accStmts (a : Acc) : Block → Acc
     | .nil => a
@@ -135,7 +143,9 @@ def handle : List Sexp → Option Sexp
       some (list [list ((typeWalk c cb).map encRow),
                   list ((sortNat acc.blocks).map fun n => list (rowPrev n)),
                   list ((sortNat acc.pars).map fun n => list (rowNext n)),
-                  list ((sortNat acc.links).map fun n => list (rowNext n))])
+                  list ((sortNat acc.links).map fun n => list (rowNext n)),
+                  list ((sortNat acc.evts).map fun n => list (rowNextEvt n)),
+                  list ((varWalk c cb).map fun r => list [str r.1, match r.2 with | some t => str t | none => sym "none"])])
     | _, _ => some (list [sym "error", sym "undecodable"])
   | [sym "c06-recipes"] =>
     some (list (recipes.map fun r =>
